@@ -222,7 +222,9 @@ type c10Gen struct {
 func (g *c10Gen) pick(l []string) string { return l[g.rng.Intn(len(l))] }
 
 var c10Lits = []string{"a", "b", "c", "k", "s", "K", "S", "Z", "z", "0", "1", "7", "9", "_", " ", "-", ",", ":", "i", "Q", "E", "x", "]", "}", "=", "!", "~", "\"", "'", "/", "#"}
-var c10NonASCII = []string{"é", "à", "ÿ", "µ", "ß", "γ", "Σ", "σ", "ς", "ſ", "K", "Å", "ǅ", "€", "中", "😀", "\u0345", "\u00a0", "\u0100", "\u00ff"}
+var c10NonASCII = []string{"é", "à", "ÿ", "µ", "ß", "γ", "Σ", "σ", "ς", "ſ", "K", "Å", "ǅ", "€", "中", "😀", "\u0345", "\u00a0", "\u0100", "\u00ff",
+	// raw characters at the UTF-8 encoding boundaries and around U+FFFD (utf8.RuneError is also a valid character)
+	"\ufffd", "\ufffd", "\ufffc", "\ufffe", "\uffff", "\U0010ffff", "\U00010000", "\u0080", "\u07ff", "\u0800", "\ud7ff", "\ue000", "\ufff0"}
 var c10EscPunct = []string{`\.`, `\*`, `\+`, `\?`, `\(`, `\)`, `\[`, `\]`, `\{`, `\}`, `\|`, `\\`, `\-`, `\^`, `\$`, `\/`, `\_`, `\ `, `\"`, `\a`, `\f`, `\n`, `\r`, `\t`, `\v`}
 var c10Sets = []string{`\d`, `\D`, `\w`, `\W`, `\s`, `\S`}
 var c10Names = []string{"Any", "Ascii", "L", "Lu", "Ll", "Lt", "Lm", "Lo", "LC", "M", "Mn", "Nd", "N", "Nl", "Zs", "Zl", "Zp", "Z", "P", "Pd", "Sm", "S", "Cc", "C",
@@ -527,6 +529,9 @@ var c10Corpus = []string{
 	`[a-\x{7a}]`, `[.]`, `é`, `[é]`, `[Ā]`, `\p{Any}`, `\P{^Any}`, `\p{^`, `\p`, `\pZx`, `a{1,}`, `a{9223372036854775807}`, `a{9223372036854775808}`,
 	`(?i)(?-i)`, `((?i)a)a`, `(?i)(a(?-i)a)a`, `(?i:a|b)c`, `(?ii--i:a)`, `(?:a)`, `(?é)`, `[^\n-\x{10ffff}]`, `\777`, `\377`, `\378`, `\08`,
 	`[^\x00-\xfe]`, `[^\x01-\xff]`, `[^\x00-\x{10fffe}]`, `[^\x00-\x{10ffff}]`, `[^\x01-\x{10fffd}]`, `\P{Any}`, `[^\x00-\xfd\xff]`,
+	"\ufffd", `\ufffd`, "[\ufffd]", `[\ufffd]`, "[\ufff0-\ufffd]", `[\ufff0-\ufffd]`, "[\ufffd-\uffff]", "[^\ufffd]", `[^\ufffd]`, "(?i)\ufffd", "(?i)[\ufffd]", "a\ufffdb*", "\ufffd+", "\\Q\ufffd\\E",
+	"[\ufffc-\ufffe]", "\ufffe\uffff", "[\uffff]", "\U0010ffff", "[\U0010ffff]", "[\U00010000-\U0010ffff]", `[\U00010000-\U0010ffff]`, "[\u0080-\u07ff]", `[\x80-\u07ff]`, "\u0080", "\u07ff\u0800", "[\u0800-\ud7ff]",
+	"[\ud7ff-\ue000]", `[\ud7ff-\ue000]`, "\ud7ff\ue000", "[^\ue000-\ufffd]", "[a-\ufffd]", "[\ufffd-a]", "\\p\ufffd", "{\ufffd}", "(?\ufffd)", "a{1,\ufffd}", "\\\ufffd", "[\\\ufffd]",
 	`[A-[B]]`, `[a-[b]]`, `[\p{Zl}-\p{Zp}]`, `\ud800`, `[\ud800-\udfff]`, `\x{0}`, `\x{}`, `\x{10FFFF}`, `\x{110000}`, `\x{0000000041}`, `(?i)k`, `(?i)[k]`,
 	`(?i)[^k]`, `(?i)ǅ`, `(?i)\x{1c5}`, `(?i)ß`, `(?i)µ`, `(?i)[µ]`, `(a(?i)b|c)d`, `(?i)\Qabc\E`, `\Qab\Ec*`, `a\Q\E*`, `x\Qab`, `[[:alpha:]]`, `[a&&b]`,
 	`\b`, `\z`, `\E`, `\-`, `\ `, `a{,5}`, `a{}`, `{1a}`, `{_a1}`, `{eoi}`, `[\Qa\E]`, `[{a}]`, `\p{Lu}{2}`, `(?i)\p{Lu}`, `(?i)\P{Lu}`, `(?i)\p{Nd}`, `\p{Soft_Dotted}`,
